@@ -248,7 +248,9 @@ impl Generator {
             Ext4 => {
                 // ext4: 4-byte signed integer, must be > 0
                 // use u32 and ensure it's positive
-                let code = source.gen_u32().saturating_add(1);
+                // the argument is read back as a *signed* 4-byte integer, so keep the
+                // code within 1..=i32::MAX
+                let code = (source.gen_u32() % (i32::MAX as u32)).saturating_add(1);
                 debug_assert!(code > 0, "EXT4 code must be > 0, got {}", code);
                 self.output.push(Ext4.as_u8());
                 self.output.extend_from_slice(&code.to_le_bytes());
